@@ -60,8 +60,10 @@ static fff_vector* _fff_vector_new_from_buffer(const char* data, npy_intp dim, n
   fff_vector* y;
   size_t sizeof_double = sizeof(double);
 
-  /* If the input array is double and is aligned, just wrap without copying */
-  if ((type == NPY_DOUBLE) && (itemsize==sizeof_double)) {
+  /* If the input array is double, is aligned and has a positive stride,
+     just wrap without copying (fff_vector strides are unsigned: a
+     negative stride cannot be represented) */
+  if ((type == NPY_DOUBLE) && (itemsize==sizeof_double) && (stride > 0)) {
     y = (fff_vector*)malloc(sizeof(fff_vector));
     y->size = (size_t)dim;
     y->stride = (size_t)stride/sizeof_double;
